@@ -62,6 +62,10 @@ SPEC = {
                    # STRANDED = the harness gave up polling; what is stranded, and whether that is held
                    # against the library, is the monitor's verdict on the log
                    "ok_status": ("OK", "STRANDED"),
+                   # the model is of the code AS IT IS, windows of the known findings included: a run
+                   # excused by a known finding must still be accepted by the model, otherwise a change
+                   # that only acts inside such a window would hide behind the finding
+                   "known_must_validate": True,
                    "nontrivial": nontrivial}],
         "rule": "cases = (1-3 target fibers with 0-5 yields each, 2-5 actor fibers with scripts over join/tryjoin/detach/yield, 1-3 kernel threads, scheduler kind+seed) from VERIF_SEED; distinct = different (args, sha1 of access sequence); non-trivial = a fiber was parked in a join_info mailbox and taken out by another one, with at least two client calls in the run",
         "trusted_base": [
